@@ -50,7 +50,7 @@ def wellformed(rng, fmt, small=True):
             p['filler_seed'] = rng.getrandbits(30)
     elif fmt == 'vmdk':
         desc_num = rng.choice([1, 2, 2, 20, 20, 100] + ([] if small else [2048]))
-        p = dict(sectors=size_pool(rng, 55), ver=rng.choice([1, 1, 2, 3]), desc_num=desc_num,
+        p = dict(sectors=size_pool(rng, 64), ver=rng.choice([1, 1, 2, 3]), desc_num=desc_num,
                  ctype=rng.choice(['monolithicSparse', 'streamOptimized', 'MONOLITHICSPARSE', 'StreamOptimized']),
                  footer=rng.random() < 0.4, min_total=rng.choice([0, 0, 2048, 65536]),
                  extents=[rng.choice(['RW 2048 SPARSE "disk.vmdk"', 'RDONLY 10 SPARSE "c.vmdk"',
